@@ -64,8 +64,44 @@ type c03ListCfg struct {
 
 const c03RecursiveTypeKey = "crash-stack-overflow:config-type-with-a-direct-self-referential-pointer-field"
 
+// c03MixNode / c03MixRef / c03MixHolder: ONE node referenced through the
+// unnamed pointer type and through a defined pointer type, in the order
+// *Node, Ref, *Node.
+type c03MixNode struct {
+	ID   int
+	Kids []c03MixRef
+}
+
+type c03MixRef *c03MixNode
+
+type c03MixHolder struct {
+	A *c03MixNode
+	B c03MixRef
+	C *c03MixNode
+}
+
+// c03IncludeMixedPointerTypesCase: the fixed case "one-node-through-plain-and-
+// defined-pointer-types" failed on the library before /repo commit b6ba280 (A
+// and C, both *Node and identical in the input, came out distinct: the copy
+// made for the Ref-typed reference re-registered the node's address under
+// *Node). The repair keys the pointer memo by the unnamed pointer type.
+const c03IncludeMixedPointerTypesCase = true
+
+const c03MixedPtrWhere = "deepcopy:plain-and-defined-pointer-to-one-node"
+
 func c03RunCustom(w *fw.Worker, i int, fc *c03FixedCase) {
 	switch fc.Custom {
+	case "mixed-pointer-types":
+		mk := func() *c03MixHolder {
+			n := &c03MixNode{ID: 7}
+			n.Kids = []c03MixRef{n}
+			return &c03MixHolder{A: n, B: n, C: n}
+		}
+		in, exp := mk(), mk()
+		out := dials.VerifDeepCopy(reflect.ValueOf(in))
+		w.Count("a_graphs", 1)
+		c03Judge(w, i, c03MixedPtrWhere, reflect.ValueOf(exp), out, []c03Input{{v: reflect.ValueOf(in)}}, nil,
+			map[string]any{"fixed": fc.Name, "value": "type Ref *Node; n := &Node{ID: 7}; n.Kids = []Ref{n}; &Holder{A: n /* *Node */, B: n /* Ref */, C: n /* *Node */}"}, "custom|"+fc.Name)
 	case "recursive-pointer-type-config":
 		a, b := &c03ListNode{ID: 1}, &c03ListNode{ID: 2}
 		a.Next, b.Next = b, a
@@ -94,6 +130,9 @@ func c03Fixed() []c03FixedCase {
 	out = append(out, c03FixedCase{Name: "config/type-with-direct-self-referential-pointer-field", Custom: "recursive-pointer-type-config", CrashKey: c03RecursiveTypeKey})
 	if c03IncludeTypedSliceSelfCase {
 		out = append(out, c03FixedCase{Name: "typed-slice-reaching-itself-through-its-by-value-element", Custom: "typed-slice-self", CrashKey: c03TypedSliceSelfKey})
+	}
+	if c03IncludeMixedPointerTypesCase {
+		out = append(out, c03FixedCase{Name: "one-node-through-plain-and-defined-pointer-types", Custom: "mixed-pointer-types"})
 	}
 	addA := func(name string, p *c03Plan, entries ...int) {
 		if len(entries) == 0 {
@@ -356,6 +395,70 @@ func c03Fixed() []c03FixedCase {
 		p := c03PlanOf("A", c03With(c03N(), anyOf("aslice", 0)))
 		p.ASlices = [][]c03AnyPlan{{{K: "aslice", I: 0}}}
 		out = append(out, c03FixedCase{Name: "slice-reaching-itself-through-iface", Plan: p, CrashKey: c03SliceSelfKey})
+	}
+
+	// --- family R: every reference is of a defined pointer type (type Ref *Node)
+	{
+		const crash = "crash-stack-overflow:cycle-of-" + c03DefinedPtr + "-references"
+		addR := func(name string, p *c03Plan, entries ...int) {
+			for _, e := range entries {
+				out = append(out, c03FixedCase{Name: c03DefinedPtr + "/" + name + "/" + c03EntryNames[e], Plan: p, Entry: e, CrashKey: crash})
+			}
+		}
+		// no cycle at all: one node referenced from a field, two slice elements,
+		// an array element, a map value and an interface value
+		dm := c03PlanOf("R",
+			c03With(c03N(), func(n *c03NodePlan) {
+				n.Next = 1
+				n.Kids = []int{1, 1}
+				n.Pair = [2]int{-1, 1}
+				n.M = 0
+				n.Any = c03AnyPlan{K: "ptr", I: 1}
+			}),
+			c03N())
+		dm.Maps = []map[string]int{{"x": 1}}
+		addR("diamond", dm, 0, 1, 2, 3)
+		// cycles that also pass a slice or a map
+		cy := c03PlanOf("R",
+			c03With(c03N(), func(n *c03NodePlan) { n.Kids = []int{1, 0}; n.M = 0 }),
+			c03With(c03N(), func(n *c03NodePlan) { n.Any = c03AnyPlan{K: "ptr", I: 0}; n.MA = 0 }))
+		cy.Maps = []map[string]int{{"self": 0, "kid": 1}}
+		cy.MAs = []map[string][2]int{{"a": {0, 1}}}
+		addR("cycles-through-slice-map-and-interface", cy, 0, 1, 4)
+		// cycles made of struct fields, array elements and interface values only
+		addR("self-loop-through-a-field", c03PlanOf("R", c03With(c03N(), func(n *c03NodePlan) { n.Next = 0 })), 0, 2)
+		addR("2-cycle-through-field-and-interface", c03PlanOf("R",
+			c03With(c03N(), func(n *c03NodePlan) { n.Next = 1 }),
+			c03With(c03N(), func(n *c03NodePlan) { n.Any = c03AnyPlan{K: "ptr", I: 0}; n.Pair = [2]int{1, 0} })), 0, 3)
+		addR("pointer-to-defined-pointer-in-interface", c03PlanOf("R",
+			c03With(c03N(), func(n *c03NodePlan) { n.Any = c03AnyPlan{K: "pp", I: 1}; n.Kids = []int{1}; n.Skip = 1 }),
+			c03With(c03N(), func(n *c03NodePlan) { n.SkipS = []int{0, 1} })), 0)
+	}
+
+	// --- path (b): layers of one stack whose values share nodes
+	{
+		g := c03PlanOf("B",
+			c03With(c03N(), func(n *c03NodePlan) { n.Kids = []int{1, 0}; n.M = 0; n.Leaf = 0; n.MA = 0 }),
+			c03With(c03N(), func(n *c03NodePlan) { n.Any = c03AnyPlan{K: "ptr", I: 0}; n.Kids = []int{2}; n.M = 1; n.Leaf = 1 }),
+			c03With(c03N(), func(n *c03NodePlan) { n.Kids = []int{2, 1}; n.M = 1; n.MA = 0 }))
+		g.Leafs = 2
+		g.Maps = []map[string]int{{"self": 0, "kid": 1}, {"two": 2}}
+		g.MAs = []map[string][2]int{{"a": {0, 2}}}
+		allSlot := []string{"Kids", "Pairs", "M", "MM", "MA", "Leaf"}
+		pool := []c03SlotPlan{{Node: 0, Set: allSlot}, {Node: 1, Set: []string{"Kids", "M", "Leaf"}}, {Node: 2, Set: []string{"Kids", "MA"}}}
+		none := c03LayerPlan{Slots: [3]int{-1, -1, -1}}
+		addL := func(name string, ls *c03Layered) {
+			out = append(out, c03FixedCase{Name: c03LayersShare + "/" + name, Layered: ls})
+		}
+		// layer 1 puts struct 0 into A; layer 2 merges struct 1 into A and puts struct 0 into B
+		addL("lower-layers-struct-merged-into-and-set-again", &c03Layered{Graph: g, Pool: pool, Defaults: none,
+			Layers: []c03LayerPlan{{Slots: [3]int{0, -1, -1}, Ptr: true}, {Slots: [3]int{1, 0, -1}, Roots: []int{0, 2}, Idx: []int{0}, Ptr: true}}})
+		addL("three-layers-and-restacks", &c03Layered{Graph: g, Pool: pool,
+			Defaults: c03LayerPlan{Slots: [3]int{-1, -1, 2}, Roots: []int{1}},
+			Layers:   []c03LayerPlan{{Slots: [3]int{0, 1, -1}}, {Slots: [3]int{2, 0, 1}, NoAddr: true}, {Slots: [3]int{1, 2, 0}, Idx: []int{1, 1}, Ptr: true}},
+			Updates:  []c03LayerPlan{{Slots: [3]int{0, -1, 1}, Roots: []int{0}}, {Slots: [3]int{2, 0, -1}, Ptr: true}}})
+		addL("same-value-in-every-layer", &c03Layered{Graph: g, Pool: pool, Defaults: none,
+			Layers: []c03LayerPlan{{Slots: [3]int{0, 1, 2}, Roots: []int{0}}, {Slots: [3]int{0, 1, 2}, Roots: []int{0}}}})
 	}
 
 	// --- path (b): dials.Config, View, re-stack
